@@ -10,6 +10,7 @@ usage: rust2coq.py --repo <lasso checkout> --out <dir> [--only keys|arena|lockfr
   rodeo     src/rodeo.rs                                  -> <out>/RodeoGen.v          (lower_rodeo.py)
   threaded  src/threaded_rodeo.rs                         -> <out>/ThreadedGen.v       (lower_threaded.py)
 
+Every function body is first prepared by astx.py (helpers of the same file inlined, idioms normalised); see there.
 Whenever the source leaves the subset the translator understands it prints
     LOST: <file>:<line>: <what>
 and exits 1 without writing the output file of that part.  It never guesses.
